@@ -263,6 +263,17 @@ func (c *Cluster) SetSlowUse(k string, d time.Duration) {
 	c.mu.Unlock()
 }
 
+// SetSlowUseMissing makes every USE of a keyspace that does NOT exist take d before it is refused.
+func (c *Cluster) SetSlowUseMissing(k string, d time.Duration) {
+	c.mu.Lock()
+	if c.slowUse == nil {
+		c.slowUse = map[string]time.Duration{}
+	}
+	c.slowUse[k] = d
+	delete(c.ks, k)
+	c.mu.Unlock()
+}
+
 // SetListed changes whether host i appears in system.local/system.peers.
 func (c *Cluster) SetListed(i int, listed bool) { c.mu.Lock(); c.listed[i] = listed; c.mu.Unlock() }
 
